@@ -365,6 +365,9 @@ func RunLoaded(l *Loaded, o Opts) *report.Report {
 	for _, k := range ndKeys {
 		roots = append(roots, m.Nondet[k])
 	}
+	for _, er := range m.EnvLog {
+		roots = append(roots, er.G)
+	}
 	{
 		var sb strings.Builder
 		c.Emit(&sb, emitted, roots...)
@@ -409,6 +412,9 @@ func RunLoaded(l *Loaded, o Opts) *report.Report {
 	for _, k := range ndKeys {
 		addGV(m.Nondet[k])
 	}
+	for _, er := range m.EnvLog {
+		addGV(er.G)
+	}
 
 	decode := func(model string, label string) (*vsched.Trace, []report.Site) {
 		vals := parseModel(model)
@@ -443,7 +449,7 @@ func RunLoaded(l *Loaded, o Opts) *report.Report {
 				continue
 			}
 			seenStep[x.f.Step] = true
-			tr.Steps = append(tr.Steps, vsched.TraceStep{Th: x.f.Th, Stmt: x.st, Op: x.f.Op, Pos: x.f.Pos})
+			tr.Steps = append(tr.Steps, vsched.TraceStep{Th: x.f.Th, Stmt: x.st, Op: x.f.Op, Pos: x.f.Pos, Step: x.f.Step})
 		}
 		for _, f := range m.FinalLog {
 			if isTrue(f.G) {
@@ -472,6 +478,26 @@ func RunLoaded(l *Loaded, o Opts) *report.Report {
 		for k, v := range m.Fix {
 			tr.Inputs["fix!"+k] = []int64{v}
 		}
+		// environment cancellations that happen in this model
+		for _, er := range m.EnvLog {
+			if !isTrue(er.G) {
+				continue
+			}
+			if ow, ok := m.EnvOwner[er.Ctx]; ok {
+				dup := false
+				for i := range tr.EnvCancels {
+					if tr.EnvCancels[i].Owner == ow[0] && tr.EnvCancels[i].Occ == ow[1] {
+						dup = true
+						if er.Step < tr.EnvCancels[i].Step {
+							tr.EnvCancels[i].Step = er.Step
+						}
+					}
+				}
+				if !dup {
+					tr.EnvCancels = append(tr.EnvCancels, vsched.EnvCancel{Step: er.Step, Owner: ow[0], Occ: ow[1]})
+				}
+			}
+		}
 		return tr, sites
 	}
 
@@ -492,8 +518,16 @@ func RunLoaded(l *Loaded, o Opts) *report.Report {
 		if v.Kind == "bound" || v.G.IsFalse() {
 			continue
 		}
-		if o.Only != "" && !strings.Contains(siteOf(v).String(), o.Only) {
-			continue
+		if o.Only != "" {
+			hit := false
+			for _, pat := range strings.Split(o.Only, "|") {
+				if strings.Contains(siteOf(v).String(), pat) {
+					hit = true
+				}
+			}
+			if !hit {
+				continue
+			}
 		}
 		if matchKnown(o.Known, siteOf(v)) {
 			known = append(known, i)
